@@ -197,10 +197,10 @@ func prelimSelfTest() (steps int64, err error) {
 
 // SelfTestResult summarises the oracle self-test.
 type SelfTestResult struct {
-	Cases int
-	OK    int
-	Steps int64
-	Fails []string
+	Cases       int
+	OK          int
+	Steps       int64
+	Fails       []string
 	PrelimSteps int64
 }
 
